@@ -1,7 +1,8 @@
 /- driver operations of C15: the evo_traj plan and the rational semantics of invert / transform -/
 import EvoModel.Model.TrajPlan
+import EvoModel.Model.TrajPipeline
 namespace Evo.Drv.C15
-open Evo Evo.TrajPlan
+open Evo Evo.TrajPlan Evo.TrajPipeline
 
 def b? (s : String) : Option Bool := if s = "1" then some true else if s = "0" then some false else none
 
@@ -58,8 +59,107 @@ def readPose (l : List String) : Option (Pose Rat × List String) := do
   let p ← Pose.ofList rs
   some (p, rest)
 
+def readOptPose : List String → Option (Option (Pose Rat) × List String)
+  | "-" :: rest => some (none, rest)
+  | "+" :: rest => do
+      let (p, rest) ← readPose rest
+      some (some p, rest)
+  | _ => none
+
+/-- `hasStamps k stamps… k poses…` -/
+def readTraj (l : List String) : Option (Traj × List String) :=
+  match l with
+  | has :: rest => do
+      let (st, rest) ← readRatList rest
+      let (ps, rest) ← readPoseList rest
+      some (⟨if has = "1" then some st else none, ps⟩, rest)
+  | [] => none
+
+def chunk (n : Nat) : Nat → List Rat → List (List Rat)
+  | 0, _ => []
+  | k + 1, l => l.take n :: chunk n k (l.drop n)
+
+def pairs : List Rat → List (Rat × Rat)
+  | a :: b :: r => (a, b) :: pairs r
+  | _ => []
+
+/-- `k lens… n n·n angles… angRad R(9) t(3) s k 2k dirs…` -/
+def readCert (l : List String) : Option (Cert × List String) := do
+  let (lens, rest) ← readRatList l
+  match rest with
+  | n :: rest => do
+      let n ← n.toNat?
+      let (a, rest) ← takeN (n * n) rest
+      let a ← parseRats? a
+      let (b, rest) ← takeN 14 rest
+      let b ← parseRats? b
+      let (d, rest) ← readRatList rest
+      match b with
+      | ar :: r0 :: r1 :: r2 :: r3 :: r4 :: r5 :: r6 :: r7 :: r8 :: t0 :: t1 :: t2 :: [sc] =>
+          some ({ mfLens := lens, mfAng := chunk n n a, mfAngRad := ar, umeR := ⟨r0, r1, r2, r3, r4, r5, r6, r7, r8⟩,
+                  umeT := ⟨t0, t1, t2⟩, umeS := sc, projDirs := pairs d }, rest)
+      | _ => none
+  | [] => none
+
+def readN {α} (f : List String → Option (α × List String)) : Nat → List String → Option (List α × List String)
+  | 0, l => some ([], l)
+  | n + 1, l => do
+      let (a, rest) ← f l
+      let (as, rest) ← readN f n rest
+      some (a :: as, rest)
+
+def showTraj (t : Traj) : String :=
+  (match t.stamps with | some s => "1 " ++ toString s.length ++ " " ++ showRats s | none => "0 0") ++ " " ++
+    toString t.poses.length ++ " " ++ showPoses t.poses
+
+def showPErr : PErr → String
+  | .select => "select" | .sync => "sync" | .align => "align" | .noRef => "no_ref" | .noStamps => "no_stamps"
+  | .noTransform => "no_transform"
+
+def readOpts (rest : List String) : Option (TrajOpts × List String) := do
+  let (f, rest) ← readFlags rest
+  match rest with
+  | ds :: d :: a :: to :: md :: n :: rest => do
+      let o : TrajOpts := { flags := f, downsample := ← ds.toNat?, mfDistance := ← parseRat? d,
+                            mfAngleDeg := ← parseRat? a, tOffset := ← parseRat? to, tMaxDiff := ← parseRat? md,
+                            nToAlign := ← n.toInt? }
+      some (o, rest)
+  | _ => none
+
+/-- `run <flags> <values> tfScaleLeft tfScaleRight tfL tfR ntraj traj… cert… mergedCert hasRef [ref refCert]` -/
+def handleRun (rest : List String) : Option String := do
+  let (o, rest) ← readOpts rest
+  match rest with
+  | scl :: scr :: rest => do
+      let scl ← parseRat? scl
+      let scr ← parseRat? scr
+      let (tl, rest) ← readOptPose rest
+      let (tr, rest) ← readOptPose rest
+      match rest with
+      | nt :: rest => do
+          let nt ← nt.toNat?
+          let (trajs, rest) ← readN readTraj nt rest
+          let (certs, rest) ← readN readCert nt rest
+          let (mc, rest) ← readCert rest
+          let (ref, refCert) ← (match rest with
+            | "1" :: rest => do
+                let (r, rest) ← readTraj rest
+                let (c, _) ← readCert rest
+                some (some r, c)
+            | _ => some (none, ({} : Cert)))
+          let inp : Inputs := ⟨trajs, ref, certs, mc, refCert, tl, tr, scl, scr⟩
+          match trajRun o inp with
+          | .error (.inl d) => some ("DIE " ++ showDie d)
+          | .error (.inr e) => some ("ERR " ++ showPErr e)
+          | .ok (ts, r) =>
+              some ("OK " ++ toString ts.length ++ " " ++ " ".intercalate (ts.map showTraj) ++
+                (match r with | some r => " 1 " ++ showTraj r | none => " 0"))
+      | [] => none
+  | _ => none
+
 /-- ops:
   `plan <19 flags> downsample mfDist mfAngle tOffset tMaxDiff nToAlign` → `OK steps… | refsteps…` or `DIE reason`
+  `run …`             → `trajRun` on rational inputs (see `handleRun`)
   `invert s M`        → `se3|sim3` and the 12 entries of the inverse used by `run`
   `invertold M`       → the 12 entries `se3_inverse` returns (code before fix 0088a59)
   `isse3 M`           → `1|0` and the margin of the tolerance tests
@@ -67,6 +167,7 @@ def readPose (l : List String) : Option (Pose Rat × List String) := do
   `transform rightMul propagate s T k poses…` → transformed poses -/
 def handle (op : String) (args : List String) : Option String :=
   match op, args with
+  | "run", rest => handleRun rest
   | "plan", rest => do
       let (f, rest) ← readFlags rest
       match rest with
